@@ -312,6 +312,10 @@ class Repo:
             return None
         if mname in c.methods:
             return c.methods[mname]
+        # hoisted into a base class of the package: the inherited definition is what runs for this class
+        for k in self.mro(c)[1:]:
+            if mname in k.methods:
+                return k.methods[mname]
         if required:
             raise AnalysisError(f"anchor method vanished: {cname}.{mname}")
         return None
